@@ -245,14 +245,14 @@ Definition gre_layer (et : N) : layer := mk PGRE ([0; 0] ++ enc_be 2 et) [] (nex
 
 Definition l4_assign (x : l4) : list (N * pval) :=
   match x with
-  | L4TCP sp dp fl => [(cSrcPort, VI sp); (cDstPort, VI dp); (cTcpFlags, VI fl)]
+  | L4TCP sp dp fl _ => [(cSrcPort, VI sp); (cDstPort, VI dp); (cTcpFlags, VI fl)]
   | L4UDP sp dp => [(cSrcPort, VI sp); (cDstPort, VI dp)]
   | L4ICMP t c | L4ICMP6 t c => [(cIcmpType, VI t); (cIcmpCode, VI c)]
   | L4Other _ _ => []
   end.
 Definition l4_chain (x : l4) : list layer :=
   match x with
-  | L4TCP _ _ _ => [mk PTCP (enc_l4 x) (l4_assign x) PNone false]
+  | L4TCP _ _ _ _ => [mk PTCP (enc_l4 x) (l4_assign x) PNone false]
   | L4UDP _ _ => [mk PUDP (enc_l4 x) (l4_assign x) PNone false]
   | L4ICMP _ _ => [mk PICMP (enc_l4 x) (l4_assign x) PNone false]
   | L4ICMP6 _ _ => [mk PICMPv6 (enc_l4 x) (l4_assign x) PNone false]
@@ -261,12 +261,16 @@ Definition l4_chain (x : l4) : list layer :=
 Definition l4_rest (x : l4) (tail : bytes) : bytes := match x with L4Other _ p => p ++ tail | _ => tail end.
 Definition wf_l4 (x : l4) : bool :=
   match x with
-  | L4TCP sp dp _ | L4UDP sp dp => (sp <? 65536) && (dp <? 65536)
+  | L4TCP sp dp _ ow => (sp <? 65536) && (dp <? 65536) && (ow <=? 10)
+  | L4UDP sp dp => (sp <? 65536) && (dp <? 65536)
   | L4ICMP _ _ | L4ICMP6 _ _ => true
   | L4Other p _ => match next_proto p with PNone => true | _ => false end
   end.
 
 Ltac keys := repeat constructor; cbn [fst]; discriminate.
+
+Lemma tcp_lenN sp dp fl ow : lenN (enc_l4 (L4TCP sp dp fl ow)) = 20 + 4 * ow.
+Proof. unfold lenN, enc_l4. rewrite !app_length, !enc_be_len, repeat_length. cbn [length]. lia. Qed.
 
 Lemma l4_bytes x tail : enc_l4 x ++ tail = concat (map lhdr (l4_chain x)) ++ l4_rest x tail.
 Proof. destruct x; cbn [l4_chain map lhdr mk concat l4_rest app]; rewrite ?app_nil_r; reflexivity. Qed.
@@ -282,9 +286,10 @@ Qed.
 Lemma l4_contracts x rest : wf_l4 x = true -> contracts (l4_chain x) rest.
 Proof.
   destruct x; cbn [wf_l4 l4_chain contracts map concat app]; intros H; try exact I; split; try exact I; rewrite ?app_nil_l; intros rest' _.
-  - apply andb_prop in H. destruct H as [H1 H2]. apply N.ltb_lt in H1. apply N.ltb_lt in H2.
+  - apply andb_prop in H. destruct H as [H H3]. apply andb_prop in H. destruct H as [H1 H2].
+    apply N.ltb_lt in H1. apply N.ltb_lt in H2. apply N.leb_le in H3.
     unfold contract. cbn [mk lp lhdr lasg lnext lneeds]. split; [keys|]. split; [discriminate|].
-    assert (L : lenN (enc_l4 (L4TCP sp dp flags)) = 20) by reflexivity. rewrite L. split; [lia|].
+    rewrite tcp_lenN. split; [lia|].
     intros base m _. rewrite tcp_contract by assumption. reflexivity.
   - apply andb_prop in H. destruct H as [H1 H2]. apply N.ltb_lt in H1. apply N.ltb_lt in H2.
     unfold contract. cbn [mk lp lhdr lasg lnext lneeds]. split; [keys|]. split; [discriminate|].
@@ -302,7 +307,7 @@ Lemma l4_run e b ls x :
   exists e', run_layers e b ls (l4_chain x) = Some (e', if e then b else assign (l4_assign x) b, ls ++ l4_layer x).
 Proof.
   destruct x; cbn [l4_chain run_layers mk lp lhdr lasg lnext lneeds andb l4_layer l4_assign]; eexists;
-    try (replace (lenN (enc_l4 _)) with 20 by reflexivity); try reflexivity.
+    rewrite ?tcp_lenN; try reflexivity.
   - rewrite app_nil_r. destruct e; reflexivity.
 Qed.
 
@@ -755,10 +760,10 @@ Proof.
   intros H3 H4. unfold tail_chain, outer_next, tail_assign, tail_layers.
   pose proof (l3_last_cases (fOuter f)) as Hl. destruct (fTun f).
   - (* no tunnel *)
-    destruct (fL4 f) as [sp dp fl|sp dp|t c|t c|p pl] eqn:E4; cbn [l4_proto].
+    destruct (fL4 f) as [sp dp fl ow|sp dp|t c|t c|p pl] eqn:E4; cbn [l4_proto].
     1-4: (replace (encap_next false (l3_last (fOuter f)) _) with false
             by (destruct Hl as [->|[->|[->| ->]]]; reflexivity);
-          cbn [l4_chain run_layers mk lp lhdr lasg lnext lneeds andb l4_assign l4_layer]; eexists; reflexivity).
+          cbn [l4_chain run_layers mk lp lhdr lasg lnext lneeds andb l4_assign l4_layer]; rewrite ?tcp_lenN; eexists; reflexivity).
     cbn [l4_chain run_layers l4_assign l4_layer]. eexists. rewrite app_nil_r. reflexivity.
   - replace (encap_next false (l3_last (fOuter f)) (next_proto 47)) with false by (destruct Hl as [->|[->|[->| ->]]]; reflexivity).
     cbn [run_layers gre_layer mk lp lhdr lasg lnext lneeds andb].
